@@ -798,10 +798,15 @@ Proof.
   destruct o as [k|g|x|x]; unfold ceq; cbn [cstep att gain add_ase add_nli cf csw cbr pch rs ra rn];
     rewrite ?A4, ?A5, ?A6, ?A7; repeat split; try assumption; reflexivity.
 Qed.
+Lemma cstep_n_ceq o c : ceq (cstep_n o c) (cstep o c).
+Proof.
+  destruct o as [k|g|x|x]; cbn [cstep_n cstep]; try apply cnorm_ceq;
+    unfold ceq; cbn [att gain add_nli cf csw cbr pch rs ra rn]; repeat split; try reflexivity; apply Qred_correct.
+Qed.
 Lemma crun_n_ceq ops : forall c c', ceq c c' -> ceq (crun_n ops c) (crun ops c').
 Proof.
   induction ops as [|o t IH]; intros c c' H; cbn [crun_n crun fold_left]; [exact H|].
-  apply IH. eapply ceq_trans; [apply cnorm_ceq|apply cstep_ceq, H].
+  apply IH. eapply ceq_trans; [apply cstep_n_ceq|apply cstep_ceq, H].
 Qed.
 
 Lemma map2c_ceq f : forall xs sp sp', Forall2 ceq sp sp' -> res_rel (map2c f xs sp) (map2c f xs sp').
@@ -858,20 +863,31 @@ Proof.
   - cbn [res_rel]. apply filter_ceq; [apply in_band_ceq|exact H].
   - apply si_add_ceq; [exact H|apply forall2_ceq_refl].
 Qed.
-Lemma snorm_ceq sp : Forall2 ceq (snorm sp) sp.
-Proof. induction sp; cbn [snorm map]; constructor; [apply cnorm_ceq|assumption]. Qed.
 Lemma forall2_ceq_trans l1 : forall l2 l3, Forall2 ceq l1 l2 -> Forall2 ceq l2 l3 -> Forall2 ceq l1 l3.
 Proof.
   induction l1 as [|c t IH]; intros l2 l3 H12 H23; inversion H12; subst; inversion H23; subst; constructor.
   - eapply ceq_trans; eauto.
   - eapply IH; eauto.
 Qed.
+Lemma map2c_n_ceq f : forall xs sp sp', Forall2 ceq sp sp' -> res_rel (map2c_n f xs sp) (map2c f xs sp').
+Proof.
+  induction xs as [|x xt IH]; intros sp sp' H; destruct H as [|c c' ct ct' Hc Hct]; cbn [map2c_n map2c res_rel];
+    try reflexivity; [constructor|].
+  specialize (IH ct ct' Hct). destruct (map2c_n f xt ct), (map2c f xt ct'); cbn [bind res_rel] in *; try tauto.
+  constructor; [eapply ceq_trans; [apply cstep_n_ceq|apply cstep_ceq, Hc]|exact IH].
+Qed.
+Lemma sstep_n_ceq o sp sp' : Forall2 ceq sp sp' -> res_rel (sstep_n o sp) (sstep o sp').
+Proof.
+  intros H. destruct o as [ks|gs|xs|xs|lo hi|other]; cbn [sstep_n].
+  1-4: cbn [sstep]; apply map2c_n_ceq, H.
+  all: apply sstep_ceq, H.
+Qed.
 Lemma srun_n_ceq ops : forall sp sp', Forall2 ceq sp sp' -> res_rel (srun_n ops sp) (srun ops sp').
 Proof.
   induction ops as [|o t IH]; intros sp sp' H; cbn [srun_n srun]; [exact H|].
-  pose proof (sstep_ceq o sp sp' H) as Hs. unfold sstep_n.
-  destruct (sstep o sp) as [r|e], (sstep o sp') as [r'|e']; cbn [bind res_rel] in *; try tauto.
-  apply IH. eapply forall2_ceq_trans; [apply snorm_ceq|exact Hs].
+  pose proof (sstep_n_ceq o sp sp' H) as Hs.
+  destruct (sstep_n o sp) as [r|e], (sstep o sp') as [r'|e']; cbn [bind res_rel] in *; try tauto.
+  apply IH. exact Hs.
 Qed.
 Lemma srun_n_correct ops sp : res_rel (srun_n ops sp) (srun ops sp).
 Proof. apply srun_n_ceq, forall2_ceq_refl. Qed.
